@@ -411,6 +411,8 @@ def run(ctx, rep):
                       "state writer and restored by the state reader")
     rep.rule('C17.E', "encoder/decoder tables agree: ParameterEncoder tag/keys vs main() routing, update_parameters and Parameter.from_json; "
                       "TensorEncoder vs TensorDecoder; save_full_state records carry id and a non-parameter type")
+    rep.rule('C17.F', "what a reader hands to a nested load_state_dict derives from the saved state only, never from the current object's own state_dict()")
+    rep.rule('C17.S', "a reader restores into the objects the constructor injected (parameters, models, integrators, adaptors); it never re-binds such an attribute")
     rep.rule('C17.J', "state of a torch optimiser (integer keys) is not passed through JSON and back into load_state_dict without re-keying")
     rep.assumptions += [
         "torch.optim.Optimizer.state_dict()['state'] is keyed by integers; JSON object keys are strings",
@@ -426,6 +428,8 @@ def run(ctx, rep):
         check_pair(ctx, rep, cls)
         check_coverage(ctx, rep, cls)
     check_encoders(ctx, rep)
+    check_main_accumulates(ctx, rep)
+    check_reader_discipline(ctx, rep, concrete)
     check_foreign(ctx, rep, concrete)
 
 
@@ -695,7 +699,8 @@ def check_encoders(ctx, rep):
     mainfn = mainm.functions.get('main')
     if mainfn is None:
         raise AnalysisError('torchtree.main not found')
-    tuples_main = [n for n in ast.walk(mainfn) if isinstance(n, ast.Compare) and isinstance(n.ops[0], ast.In)
+    tuples_main = [n for f in [mainfn] + [g for g in mainm.functions.values() if g is not mainfn] for n in ast.walk(f)
+                   if isinstance(n, ast.Compare) and isinstance(n.ops[0], ast.In)
                    and isinstance(n.comparators[0], (ast.Tuple, ast.List, ast.Set))
                    and isinstance(n.left, ast.Subscript) and isinstance(n.left.slice, ast.Constant) and n.left.slice.value == 'type']
     if not tuples_main:
@@ -802,6 +807,108 @@ def check_encoders(ctx, rep):
                   f"{ci.name}.save_full_state record must carry id=self.id, a non-parameter type, and self.state_dict(): main() routes it by id to load_state_dict")
     if n_sfs < 2:
         raise AnalysisError('save_full_state writers not found')
+
+
+def check_main_accumulates(ctx, rep):
+    """main(): the tables built from the checkpoint files (parameter records / algorithm-state records) must accumulate
+    over all -c files: the table consulted for load_state_dict is created before the loop over the files and is
+    never re-bound inside it."""
+    mainm = ctx.prog.module('torchtree.torchtree')
+    fn = mainm.functions.get('main')
+    loads = [n for n in ast.walk(fn) if isinstance(n, ast.Call) and isinstance(n.func, ast.Attribute) and n.func.attr == 'load_state_dict']
+    if not loads:
+        raise AnalysisError('main(): load_state_dict call not found')
+    table = None
+    for c in loads:
+        for a in c.args:
+            if isinstance(a, ast.Subscript) and isinstance(a.value, ast.Name):
+                table = a.value.id
+    if table is None:
+        rep.undecided('C17.E', 'main::state-table', where(mainm, loads[0]), 'argument of load_state_dict is not a table lookup')
+        return
+    file_loops = [n for n in ast.walk(fn) if isinstance(n, ast.For) and any(isinstance(x, ast.Attribute) and x.attr == 'checkpoint' for x in ast.walk(n.iter))]
+    if not file_loops:
+        raise AnalysisError('main(): loop over the checkpoint files not found')
+    rebinds = []
+    for lp in file_loops:
+        for n in ast.walk(lp):
+            if isinstance(n, ast.Assign):
+                for t in n.targets:
+                    for e in (t.elts if isinstance(t, (ast.Tuple, ast.List)) else [t]):
+                        if isinstance(e, ast.Name) and e.id == table:
+                            rebinds.append(n)
+    rep.check('C17.E', 'main::state-table-accumulates', not rebinds, where(mainm, rebinds[0] if rebinds else fn), {'table': table},
+              f"main() re-binds `{table}` inside the loop over the checkpoint files: with several -c files only the algorithm state of the last file is restored")
+
+
+def check_reader_discipline(ctx, rep, classes):
+    """C17.F: what a reader hands to <obj>.load_state_dict derives from the saved state only (not from the current
+    object's own state).  C17.S: a reader never re-binds an attribute that the constructor injected and that carries
+    identity (parameters, models, in-package objects): other holders keep the old object."""
+    from sa.members import Kinds, PARAM, MODEL
+    kinds = Kinds(ctx.classes)
+    for cls in classes:
+        for nm in READERS:
+            r = cls.resolve(nm)
+            if r is None or any((dotted_name(d) or '').endswith('abstractmethod') for d in r[1].decorator_list):
+                continue
+            defcls, fn = r
+            if len(fn.args.args) < 2:
+                continue
+            state = fn.args.args[1].arg
+            defs: Dict[str, List[ast.AST]] = {}
+            for st in ast.walk(fn):
+                if isinstance(st, ast.Assign):
+                    for t in st.targets:
+                        base = t.value if isinstance(t, ast.Subscript) else t
+                        if isinstance(base, ast.Name):
+                            defs.setdefault(base.id, []).append(st.value)
+
+            def slice_exprs(e, seen):
+                out = [e]
+                for x in ast.walk(e):
+                    if isinstance(x, ast.Name) and x.id in defs and x.id not in seen:
+                        seen.add(x.id)
+                        for v in defs[x.id]:
+                            out += slice_exprs(v, seen)
+                return out
+            for c in ast.walk(fn):
+                if isinstance(c, ast.Call) and isinstance(c.func, ast.Attribute) and c.func.attr in READERS and c.args \
+                        and not (isinstance(c.func.value, ast.Name) and c.func.value.id == 'self'):
+                    exprs = slice_exprs(c.args[0], set())
+                    fresh = [x for e in exprs for x in ast.walk(e) if isinstance(x, ast.Call) and isinstance(x.func, ast.Attribute)
+                             and x.func.attr in WRITERS]
+                    key = f"{cls.qualname}::{ast.unparse(c.func.value)}.{c.func.attr}"
+                    rep.check('C17.F', key, not fresh, where(defcls.module, fresh[0] if fresh else c), None,
+                              f"{cls.name}.{nm} mixes the current state ({ast.unparse(fresh[0])[:60] if fresh else ''}) into what it hands to "
+                              f"{ast.unparse(c.func.value)}.{c.func.attr}: that part of the checkpoint is discarded on restart")
+            # C17.S
+            injected = {}
+            for c2 in cls.internal_mro():
+                init = c2.methods.get('__init__')
+                if init is None:
+                    continue
+                for st in ast.walk(init):
+                    if isinstance(st, ast.Assign) and isinstance(st.value, ast.Name):
+                        for t in st.targets:
+                            a = self_attr(t)
+                            if a:
+                                for arg in init.args.args + init.args.kwonlyargs:
+                                    if arg.arg == st.value.id:
+                                        injected[a] = (c2, arg)
+            for st in ast.walk(fn):
+                if isinstance(st, ast.Assign):
+                    for t in st.targets:
+                        a = self_attr(t)
+                        if a and a in injected:
+                            c2, arg = injected[a]
+                            ks = kinds.annotation_kinds(c2.module, arg.annotation)
+                            target = ctx.classes.resolve_class_expr(c2.module, arg.annotation) if arg.annotation is not None and not isinstance(arg.annotation, ast.Subscript) else None
+                            identity = bool(ks & {PARAM, MODEL}) or (target is not None)
+                            key = f"{cls.qualname}::self.{a}"
+                            rep.check('C17.S', key, not identity, where(defcls.module, st), {'annotation': ast.unparse(arg.annotation) if arg.annotation else None},
+                                      f"{cls.name}.{nm} re-binds self.{a}, an object injected by the constructor and shared with other holders "
+                                      f"(adaptors, operators, models): they keep updating/reading the old object after a restart; restore into it instead")
 
 
 def check_foreign(ctx, rep, classes):
